@@ -330,13 +330,13 @@ theorem typesAndNuma_wok (st : Loop) (levels : List Level) (log : Log) (T : Nat)
 
 /-! ### no division by zero, no failed `assert(nb)` / `assert(step)` -/
 
-theorem xyLoop_err (cap : Nat) : ∀ (fuel : Nat) (s : Bytes) (m : Nat) (acc : List ILoop) (e : Err),
-    xyLoop cap fuel s m acc = .err e → e = .loopsOverflow := by
+theorem xyLoop_err (cap total : Nat) : ∀ (fuel : Nat) (s : Bytes) (m nbs : Nat) (acc : List ILoop) (e : Err),
+    xyLoop cap total fuel s m nbs acc = .err e → e = .loopsOverflow := by
   intro fuel
   induction fuel with
-  | zero => intro s m acc e h; simp [xyLoop] at h
+  | zero => intro s m nbs acc e h; simp [xyLoop] at h
   | succ f ih =>
-    intro s m acc e h
+    intro s m nbs acc e h
     unfold xyLoop at h
     generalize strtolU32 0 s = p at h
     obtain ⟨step, t2⟩ := p
@@ -345,7 +345,60 @@ theorem xyLoop_err (cap : Nat) : ∀ (fuel : Nat) (s : Bytes) (m : Nat) (acc : L
     all_goals first
       | cases h; done
       | (simp only [XY.err.injEq] at h; exact h.symm)
-      | exact ih _ _ _ _ h
+      | exact ih _ _ _ _ _ h
+
+/-- the product of the loop counts as hwloc_synthetic_process_indexes accumulates it -/
+def nbsOf (loops : List ILoop) : Nat := loops.foldl (fun p l => (p * l.nb) % u64) 1
+
+theorem nbsOf_snoc (acc : List ILoop) (x : ILoop) : nbsOf (acc ++ [x]) = (nbsOf acc * x.nb) % u64 := by
+  simp [nbsOf, List.foldl_append]
+
+/-- F69: every accepted `x*y` loop keeps `nbs * nb ≤ total`: the product never wraps and is never 0 -/
+theorem xyLoop_nbs (cap total : Nat) (ht : total < u64) : ∀ (fuel : Nat) (s : Bytes) (m nbs : Nat) (acc loops : List ILoop),
+    nbsOf acc = nbs → 1 ≤ nbs → nbs ≤ total → xyLoop cap total fuel s m nbs acc = .ok loops →
+    1 ≤ nbsOf loops ∧ nbsOf loops ≤ total := by
+  intro fuel
+  induction fuel with
+  | zero => intro s m nbs acc loops _ _ _ h; simp [xyLoop] at h
+  | succ f ih =>
+    intro s m nbs acc loops hacc h1 h2 h
+    unfold xyLoop at h
+    generalize strtolU32 0 s = p at h
+    obtain ⟨step, t2⟩ := p
+    simp only at h
+    split at h
+    · cases h
+    · split at h
+      · split at h
+        · cases h
+        · generalize strtolU32 0 _ = q at h
+          obtain ⟨nb, t3⟩ := q
+          simp only at h
+          split at h
+          · cases h
+          · split at h
+            · cases h
+            · split at h
+              · cases h
+              · split at h
+                · cases h
+                · split at h
+                  · cases h
+                  · rename_i hnb0 hnbs _
+                    have hmul : nbs * nb ≤ total := by
+                      have : nb ≤ total / nbs := by omega
+                      rw [Nat.le_div_iff_mul_le (by omega)] at this
+                      rw [Nat.mul_comm]; exact this
+                    have hmod : (nbs * nb) % u64 = nbs * nb := Nat.mod_eq_of_lt (by omega)
+                    have hpos : 1 ≤ nbs * nb := Nat.mul_pos (by omega) (by omega)
+                    have hnew : nbsOf (acc ++ [⟨step, nb⟩]) = nbs * nb := by rw [nbsOf_snoc, hacc, hmod]
+                    split at h
+                    · simp only [XY.ok.injEq] at h; subst h
+                      rw [hnew]; exact ⟨hpos, hmul⟩
+                    · split at h
+                      · cases h
+                      · exact ih _ _ _ _ loops (by rw [hnew, hmod]) (by rw [hmod]; exact hpos) (by rw [hmod]; exact hmul) h
+      · cases h
 
 theorem tyLoop_err (levels : List Level) (cap len : Nat) : ∀ (fuel : Nat) (s : Bytes) (off : Nat) (acc : List Nat) (log : Log) (e : Err),
     (tyLoop levels cap len fuel s off acc log).1 = .err e → e = .loopsOverflow := by
@@ -378,7 +431,7 @@ theorem tyCompute_no_err (levels : List Level) (total : Nat) (depths : List Nat)
     (hdep : ∀ d ∈ depths, d < levels.length) (hne : 1 ≤ levels.length)
     (hpos : ∀ j, j < levels.length → 1 ≤ (lvAt levels j).width)
     (hmono : ∀ i j, i ≤ j → j < levels.length → (lvAt levels i).width ≤ (lvAt levels j).width)
-    (htot : total * 4 ≤ allocLimit) :
+    (htot : total ≤ u32 - 1) :
     ∀ (rest : List Nat) (k : Nat) (loops : List ILoop) (minstep nbs : Nat) (log : Log) (e : Err),
     (∀ d ∈ rest, d < levels.length) → (tyCompute levels total depths rest k loops minstep nbs log).1 ≠ .err e := by
   intro rest
@@ -417,7 +470,7 @@ theorem tyCompute_no_err (levels : List Level) (total : Nat) (depths : List Nat)
           · rename_i hab
             exfalso
             -- step and nb are in 1 .. 2^24
-            have htl : total < 16777217 := by unfold allocLimit at htot; omega
+            have htl : total < 4294967296 := by unfold u32 at htot; omega
             have h1 : 1 ≤ total / (lvAt levels my).width := (Nat.le_div_iff_mul_le (by omega)).2 (by omega)
             have h2 : total / (lvAt levels my).width ≤ total := Nat.div_le_self _ _
             have h3 : 1 ≤ (lvAt levels my).width / (lvAt levels (depths.foldl (fun p d => if d < my ∧ d > p then d else p) 0)).width :=
@@ -461,7 +514,7 @@ theorem processIndexes_err (levels : List Level) (ix : Idx) (total : Nat) (e : E
           · cases h
           · rename_i e' he
             simp only [PI.err.injEq] at h; subst h
-            have := xyLoop_err _ _ _ _ _ _ he
+            have := xyLoop_err _ _ _ _ _ _ _ _ he
             subst this
             exact absurd h0 hno
           · exact (finishLoops_err _ _ _ _ _ h).1
@@ -484,6 +537,70 @@ theorem processIndexes_err (levels : List Level) (ix : Idx) (total : Nat) (e : E
               exfalso
               exact tyCompute_no_err levels total _ hdep hne hpos hmono (by omega) _ 0 [] (total % u32) 1 log e' hdep (by rw [he2])
             · exact (finishLoops_err _ _ _ _ _ h).1
+
+/-- F69: the `x*y` notation never fails an assertion: its only outcomes are an array or "indexes ignored" -/
+theorem processIndexes_xy_no_err (levels : List Level) (ix : Idx) (total : Nat) (s : Bytes) (len : Nat) (e : Err)
+    (hs : ix.str = some (s, len)) (hd : isDig (s.head?.getD 0) = true) : (processIndexes levels ix total).1 ≠ .err e := by
+  intro h
+  have h0 := h
+  unfold processIndexes at h
+  rw [hs] at h
+  simp only at h
+  split at h
+  · cases h
+  · rename_i htot
+    split at h
+    · split at h <;> cases h
+    · split at h
+      · cases h
+      · rename_i e' he
+        simp only [PI.err.injEq] at h; subst h
+        have := xyLoop_err _ _ _ _ _ _ _ _ he
+        subst this
+        exact absurd h0 (processIndexes_loops_safe levels ix total)
+      · rename_i loops he
+        have hnz := (finishLoops_err _ _ _ _ _ h).2
+        have ht : total < u64 := by unfold u32 at htot; unfold u64; omega
+        have := xyLoop_nbs _ total ht _ _ _ 1 [] loops rfl (Nat.le_refl 1) (by
+          -- total ≥ 1: otherwise the first loop (nb ≥ 1 > total / 1) is refused and there is no `.ok`
+          cases Nat.eq_zero_or_pos total with
+          | inl h0t =>
+            exfalso
+            subst h0t
+            -- with total = 0 every pair is refused
+            have : ∀ fuel s m acc, xyLoop (1 + countColons s len + 1) 0 fuel s m 1 acc ≠ .ok loops := by
+              intro fuel s' m acc hh
+              cases fuel with
+              | zero => simp [xyLoop] at hh
+              | succ f =>
+                unfold xyLoop at hh
+                generalize strtolU32 0 s' = p at hh
+                obtain ⟨step, t2⟩ := p
+                simp only at hh
+                split at hh
+                · cases hh
+                · split at hh
+                  · split at hh
+                    · cases hh
+                    · generalize strtolU32 0 _ = q at hh
+                      obtain ⟨nb, t3⟩ := q
+                      simp only at hh
+                      split at hh
+                      · cases hh
+                      · split at hh
+                        · cases hh
+                        · split at hh
+                          · cases hh
+                          · split at hh
+                            · cases hh
+                            · rename_i hnb0 hnbs
+                              simp at hnbs
+                              exact hnb0 hnbs
+                  · cases hh
+            exact this _ _ _ _ he
+          | inr hp => exact hp) he
+        unfold nbsOf at this
+        omega
 
 theorem defaultsLoop_same : ∀ (is : List Nat) (st : Fin2) (f : Fin2), defaultsLoop is st = .ok f → SameArity st.levels f.levels := by
   intro is
